@@ -10,6 +10,16 @@ CHECKS = {
          "Case mapping and trimming are shared uninterpreted functions; string slice lemmas L1-L3 are trusted. Object arguments (ToPrimitive running user code), regex-driven methods (C20) and non-BMP UTF-16 indices are outside the leaf contracts.", "DESIGN.md 5 C16"),
  "C06": ("proof", "values.to_number/to_integer/to_boolean/js_typeof/to_string (non-float), VM._to_int32/_to_uint32, _strict_equals, _abstract_equals, _compare (as used by LT/LE/GT/GE) and the per-opcode slices of VM._execute_opcode are proved equal to the ECMA-262 abstract operations for all primitive operands (stack effect included for the opcode slices).",
          "Floats are (kind, real) pairs with an uninterpreted rounding function (machine arithmetic treated as mathematical); integers held by the engine are assumed to be safe integers (representation invariant). Arithmetic opcode slices, _add, js_mod, js_pow are discharged symbolically only in the thorough tier (bounded grid in quick). Object operands (ToPrimitive) excluded; StringToNumber is a shared uninterpreted function (decided for C18).", "DESIGN.md 5 C06"),
+ "C01": ("proof", "VM._check_limits is proved (K1, all inputs) to count every instruction, to raise TimeLimitError on every k-th instruction once the deadline has passed and never spuriously; a lemma bounds the overrun by the polling period k read from the code; structural obligations (K3) show that every opcode dispatch in every run loop is preceded by an unconditional limit check, that no Python handler between the check and Context.eval absorbs or converts a limit error, and that every VM built during an evaluation inherits its deadline.",
+         "Wall-clock duration of a single opcode / native operation is out of scope (A-SCOPE). Regex polling is covered by the bounded placement library and C10. K3 analyses are syntactic and conservative (name-based reachability).", "DESIGN.md 5 C01"),
+ "C02": ("proof", "VM._check_limits memory clause (K1): a normal return implies the usage estimate is within memory_limit. K3: script-to-script calls push frames without host recursion, every host re-entry passes the explicit native-depth guard, RETURN and _throw discard operands/handlers. K5: for every statement skeleton up to nesting depth 2 (3 in thorough) compiled by the real compiler, operand and handler depths agree at every join and loop back-edge (no residue per iteration).",
+         "K5 relies on A-PARAM (the compiler treats children only by splicing their code) and on the opcode stack-effect table (validated at run time by the residue monitor). Heap data sizes are out of scope (documented).", "DESIGN.md 5 C02"),
+ "C05": ("proof", "K5 compile schemes: every statement skeleton (loop kind x exit kind x enclosing construct, nesting <= 2 quick / 3 thorough) is compiled by the real compiler, decoded with the VM's width table and abstractly interpreted: jumps land on instruction boundaries, operand/handler depth is consistent at every join. The same skeletons are run and compared with a reference interpreter implementing ECMAScript completion semantics (bounded part).",
+         "Whole-program meaning beyond the composed schemes is not decided (no compiler-correctness proof); closure/cell behaviour is covered by the bounded generators of C15. A-PARAM assumed.", "DESIGN.md 5 C05"),
+ "C07": ("proof", "K3 obligations on VM._throw (innermost handler, frame and operand truncation, thrown value unchanged, abandonment of native frames), on both run loops and on TRY_START; K5 try/catch/finally schemes (handler bracket discipline on every exit path). Bounded: skeleton semantics vs the reference interpreter, throw site x built-in x handler placement product, error objects.",
+         "Source positions of runtime errors (lineNumber/columnNumber) and stack text are not decided (documented limitation of the engine). K3 checks are syntactic.", "DESIGN.md 5 C07"),
+ "C14": ("proof", "Compiler._emit/_emit_jump/_patch_jump are proved (K1, unbounded operands and code lengths): appended bytes are in range(256), a 1-byte operand is stored exactly or the program is refused with JSError, a 16-bit jump target decodes (low | high << 8, the VM's expression, tied by K2) to the intended target or is refused; the bytes before/after are unchanged. K3/K2: both VM decoders and the compiler's width table agree.",
+         "Bounded part: shape templates swept across 255/256 and 65535/65536 with closed-form results.", "DESIGN.md 5 C14"),
 }
 NA_REASON = "check not built yet (build in progress; see DESIGN.md section 5)"
 m = {"version": 1,
